@@ -47,6 +47,14 @@ def run(ctx: Ctx):
               ' that merges them sees them all (R-C03-6 single-pass discipline)',
               c03.r6, ('chainables.transform', 'chainables.orchestrate'), 'R-C03-6', 8,
               min_instances=8)
+  from mlmverif.props import c04
+  from mlmverif.props._queue import model as qmodel
+  ctx.include('R-C16-12', '"the same aggregate result": a shard\'s aggregation state travels'
+              ' as the return value of its generator — the queue records the return values'
+              ' under the state lock BEFORE any consumer can observe end-of-stream, and'
+              ' verbatim (R-C04-6); a request already blocked when the producer finishes'
+              ' would otherwise get StopIteration() without the state and the master merges'
+              ' fewer states without any error', c04.r6, qmodel(ctx), min_instances=3)
 
 
 def r1(ctx: Ctx):
